@@ -140,9 +140,8 @@ def step (st : St) (op : String) (args : List String) : Option (St × String) :=
     let (post, _) ← snap? obs
     let rid ← rid.toNat?
     let c ← p.commits.find? (·.req == rid)
-    let rq ← p.req? rid
     -- handed over iff the picked entries are bound to the pod afterwards
-    let delivered := c.pick.all fun ip => post.ips.any fun b => b.ip == ip && b.owner == some rq.pod
+    let delivered := c.pick.all fun ip => post.ips.any fun b => b.ip == ip && b.owner == some c.pod
     match p.step (.commit rid delivered) with
     | some p' => okSlot st p' i
     | none => some (st, "reject")
